@@ -172,7 +172,7 @@ fn seq_one<A: Sx>(sp: &Spec, content: &[A], s: usize, out: &mut Out) {
     };
     let pl = place(content, s, 0);
     let fresh = build(content);
-    let copied: Seq<A> = pl.view().to_owned();
+    let copied: Seq<A> = owned_headed(content, s);
     if let Some(h) = head_of(&copied) {
         out.dim("owned_head_bit", h as i64);
     }
